@@ -397,6 +397,95 @@ fn ctx_templates() -> Vec<CtxT> {
     ]
 }
 
+
+/// class-based (format 2) templates whose Coverage table is NOT the union of the classes that have a rule set, and
+/// chained templates with three different ClassDefs: a rule can only start at a covered glyph, and every sequence
+/// is classified with its own ClassDef
+fn coverage_templates() -> Vec<CtxT> {
+    vec![
+        // b is in class 1 (which has a rule set) but is not covered
+        CtxT {
+            name: "ctx2{cov[a] class1={a,b}: 1 1}",
+            n: 2,
+            build: |r, _| vec![Sub::Context2 { cov: vec![A], classes: vec![(A, 1), (B, 1)], sets: vec![None, Some(vec![rule(vec![1], r)])] }],
+        },
+        // covered class-0 glyphs L, m1 with a rule set for class 0; b is class 0 but not covered; a is covered, its class has no set
+        CtxT {
+            name: "ctx2{cov[a,L,m1] class1={a}: set0 = 0 1}",
+            n: 2,
+            build: |r, _| vec![Sub::Context2 { cov: vec![A, L, M1], classes: vec![(A, 1)], sets: vec![Some(vec![rule(vec![1], r)]), None] }],
+        },
+        // covered class-0 glyphs b, L without a rule set for class 0
+        CtxT {
+            name: "ctx2{cov[a,b,L] class1={a}: set0 null, set1 = 1 0}",
+            n: 2,
+            build: |r, _| vec![Sub::Context2 { cov: vec![A, B, L], classes: vec![(A, 1)], sets: vec![None, Some(vec![rule(vec![0], r)])] }],
+        },
+        // chained: b has input class 1 with a rule set but is not covered; L (class 2) is covered
+        CtxT {
+            name: "chain2{cov[a,L] in1={a,b} in2={L}: |1 2| ; |2 1|:other}",
+            n: 2,
+            build: |r, o| {
+                vec![Sub::Chain2 {
+                    cov: vec![A, L],
+                    back_classes: vec![],
+                    in_classes: vec![(A, 1), (B, 1), (L, 2)],
+                    ahead_classes: vec![],
+                    sets: vec![None, Some(vec![crule(vec![], vec![2], vec![], r)]), Some(vec![crule(vec![], vec![1], vec![], o)])],
+                }]
+            },
+        },
+        // chained: covered class-0 glyphs b, m2 with a rule set for class 0; L is class 0 but not covered; a (class 1) has no set
+        CtxT {
+            name: "chain2{cov[a,b,m2] in1={a}: set0 = |0 1|}",
+            n: 2,
+            build: |r, _| {
+                vec![Sub::Chain2 {
+                    cov: vec![A, B, M2],
+                    back_classes: vec![(A, 1)],
+                    in_classes: vec![(A, 1)],
+                    ahead_classes: vec![(A, 1)],
+                    sets: vec![Some(vec![crule(vec![], vec![1], vec![], r)]), None],
+                }]
+            },
+        },
+        // three different ClassDefs: backtrack {a:2, b:1, m1:1}, input {a:1, b:2}, lookahead {a:1, b:1, L:2, m1:3}
+        CtxT {
+            name: "chain2{3 classdefs: back1(b,m1)|in1(a) in2(b)|ahead2(L) ; back2(a)|in2(b)|ahead1(a,b):other}",
+            n: 2,
+            build: |r, o| {
+                vec![Sub::Chain2 {
+                    cov: vec![A, B],
+                    back_classes: vec![(A, 2), (B, 1), (M1, 1)],
+                    in_classes: vec![(A, 1), (B, 2)],
+                    ahead_classes: vec![(A, 1), (B, 1), (L, 2), (M1, 3)],
+                    sets: vec![None, Some(vec![crule(vec![1], vec![2], vec![2], r)]), Some(vec![crule(vec![2], vec![], vec![1], o)])],
+                }]
+            },
+        },
+        // the same glyph classes numbered differently in the three ClassDefs, two-glyph backtrack and lookahead
+        CtxT {
+            name: "chain2{3 classdefs: back3(a) back1(L)|in2(a)|ahead1(b) ahead3(a)}",
+            n: 1,
+            build: |r, _| {
+                vec![Sub::Chain2 {
+                    cov: vec![A, B],
+                    back_classes: vec![(A, 3), (B, 2), (L, 1)],
+                    in_classes: vec![(A, 2), (B, 3), (L, 1)],
+                    ahead_classes: vec![(A, 3), (B, 1), (L, 2)],
+                    sets: vec![None, None, Some(vec![crule(vec![3, 1], vec![], vec![1, 3], r)]), None],
+                }]
+            },
+        },
+        // format 3: the first input coverage is the coverage; the glyph also appears in backtrack / lookahead coverages
+        CtxT {
+            name: "chain3{[a b]|[b][a b]|[a]}",
+            n: 2,
+            build: |r, _| vec![Sub::Chain3 { back: vec![vec![A, B]], input: vec![vec![B], vec![A, B]], ahead: vec![vec![A]], records: r.to_vec() }],
+        },
+    ]
+}
+
 /// every alphabet glyph changes, so the output shows exactly which position a nested lookup hit
 fn n_swap() -> Lookup {
     lk((0, 0), vec![Sub::Single2 { cov: vec![A, B, L, M1, M2], subst: vec![B, A, X, M2, M1] }])
@@ -520,7 +609,7 @@ fn all_records(n: usize, target: u16) -> Vec<SeqLookup> {
 fn cat_ctxflags(thorough: bool) -> Vec<Prog> {
     let mut v = Vec::new();
     for (fi, (fname, fl)) in flags27().into_iter().enumerate() {
-        for t in ctx_templates() {
+        for t in ctx_templates().into_iter().chain(coverage_templates()) {
             let b = ctx_bundle(&t, fl, &fname, &all_records(t.n, 2), &[n_swap()], "swap@all");
             v.push(prog_of("ctxflags", &b, (4, 5), SEAM_CUSTOM | SEAM_MASK | SEAM_SHAPE, enc_level(thorough, fi)));
             if t.n >= 2 {
